@@ -18,6 +18,27 @@ type CVal struct {
 var bstrType = types.NewNamed(types.NewTypeName(token.NoPos, nil, "bstr", nil), types.NewStruct(nil, nil), nil)
 var nilMarker = &Term{Op: "<nil>", Sort: "Nil"}
 
+// spec-only fixed-width vector types bvN (N in 1..512)
+var bvTypes = map[int]types.Type{}
+
+func bvType(n int) types.Type {
+	if t, ok := bvTypes[n]; ok {
+		return t
+	}
+	t := types.NewNamed(types.NewTypeName(token.NoPos, nil, fmt.Sprintf("bv%d", n), nil), types.NewStruct(nil, nil), nil)
+	bvTypes[n] = t
+	return t
+}
+
+func bvTypeWidth(t types.Type) (int, bool) {
+	for n, bt := range bvTypes {
+		if bt == t {
+			return n, true
+		}
+	}
+	return 0, false
+}
+
 type CEnv struct {
 	v      *Verifier
 	pkg    *types.Package
@@ -85,6 +106,9 @@ func (e *CEnv) bstrSort() string {
 
 func (e *CEnv) mkBStr(arr, n *Term) *Term {
 	s := e.bstrSort()
+	if e.st != nil {
+		n = e.st.normInt(n)
+	}
 	return mk("mk-"+s, s, arr, n)
 }
 func (e *CEnv) bArr(b *Term) *Term {
@@ -103,6 +127,9 @@ func (e *CEnv) sortOfC(t types.Type) string {
 	}
 	if t == bstrType {
 		return e.bstrSort()
+	}
+	if n, ok := bvTypeWidth(t); ok {
+		return SBV(n)
 	}
 	return e.v.sortOf(t)
 }
@@ -128,6 +155,12 @@ func (e *CEnv) resolveType(ct *CType) types.Type {
 		return nil
 	case "any":
 		return types.Universe.Lookup("any").Type()
+	}
+	if strings.HasPrefix(name, "bv") {
+		var n int
+		if _, err := fmt.Sscanf(name, "bv%d", &n); err == nil && n > 0 && n <= 512 && fmt.Sprintf("bv%d", n) == name {
+			return bvType(n)
+		}
 	}
 	if i := strings.Index(name, "."); i >= 0 {
 		pn, tn := name[:i], name[i+1:]
@@ -276,10 +309,10 @@ func (e *CEnv) unify(a, b CVal) (CVal, CVal) {
 	wa, aBV := isBVSort(a.T.Sort)
 	wb, bBV := isBVSort(b.T.Sort)
 	switch {
-	case aBV && b.T.Sort == SInt && b.T.isInt():
-		return a, CVal{BVLitB(b.T.Int, wa), a.Ty}
-	case bBV && a.T.Sort == SInt && a.T.isInt():
-		return CVal{BVLitB(a.T.Int, wb), b.Ty}, b
+	case aBV && b.T.Sort == SInt && litTree(b.T):
+		return a, CVal{litTreeToBV(b.T, wa), a.Ty}
+	case bBV && a.T.Sort == SInt && litTree(a.T):
+		return CVal{litTreeToBV(a.T, wb), b.Ty}, b
 	case aBV && b.T.Sort == SInt:
 		return CVal{e.intOf(a), nil}, b
 	case bBV && a.T.Sort == SInt:
@@ -1037,7 +1070,17 @@ func (e *CEnv) trCall(x *CExpr) CVal {
 		return CVal{Ite(Ge(ai, bi), a.T, b.T), a.Ty}
 	case "be128", "le128": // 16-byte array -> 128-bit vector (bv mode)
 		a := e.tr(x.Args[0])
-		return CVal{e.packBytes(a, 16, name == "be128"), nil}
+		return CVal{e.packBytes(a, 16, name == "be128"), bvType(128)}
+	case "unpack128": // 128-bit vector -> 16-byte big-endian byte string (bv mode)
+		a := e.tr(x.Args[0])
+		if w, ok := isBVSort(a.T.Sort); !ok || w != 128 {
+			unsupported("contract: unpack128 needs a bv128 (mode bv)")
+		}
+		arr := ConstArray(SArr(SInt, v.byteSort()), zeroOfSort(v.byteSort()))
+		for i := 0; i < 16; i++ {
+			arr = Store(arr, IntLit(int64(i)), bvExtract(127-8*i, 120-8*i, a.T))
+		}
+		return CVal{e.mkBStr(arr, IntLit(16)), bstrType}
 	case "bit": // bit(x, i) of a bit-vector, as Bool
 		a := e.tr(x.Args[0])
 		i := e.tr(x.Args[1])
@@ -1168,6 +1211,9 @@ func (e *CEnv) packBytes(a CVal, n int, bigEndian bool) *Term {
 		unsupported("contract: be128/le128 need mode bv")
 	}
 	get := func(i int) *Term {
+		if a.Ty == bstrType {
+			return Select(e.bArr(a.T), IntLit(int64(i)))
+		}
 		switch u := a.Ty.Underlying().(type) {
 		case *types.Array:
 			return Select(a.T, IntLit(int64(i)))
@@ -1476,4 +1522,19 @@ func (v *Verifier) reindexQuant(bvars []*Term, full *Term) ([]*Term, *Term) {
 		bound[a.Op] = true
 	}
 	return bvars, full
+}
+
+// litTree: an Int term built only from literals and ite.
+func litTree(t *Term) bool {
+	if t.isInt() {
+		return true
+	}
+	return t.Op == "ite" && len(t.Args) == 3 && litTree(t.Args[1]) && litTree(t.Args[2])
+}
+
+func litTreeToBV(t *Term, w int) *Term {
+	if t.isInt() {
+		return BVLitB(t.Int, w)
+	}
+	return Ite(t.Args[0], litTreeToBV(t.Args[1], w), litTreeToBV(t.Args[2], w))
 }
